@@ -132,7 +132,9 @@ def gen_cases(spec, ctx):
     if st == "keys-of-different-types-with-equal-text":
         # keys whose str() coincide but whose types differ (2 / "2", 2.5 / "2.5", True / "True", None / "None"): an ordering of the
         # pairs that looks only at the text leaves such keys in file order; small value pool => many cost ties
-        groups = [[2, "2"], [2.5, "2.5"], [True, "True"], [False, "False"], [None, "None"], [10, "10"], [1, "1"], [3, "3"]]
+        groups = [[2, "2"], [2.5, "2.5"], [True, "True"], [False, "False"], [None, "None"], [10, "10"], [1, "1"], [3, "3"],
+                  # different string keys that a "natural", case-folding or normalising order would rank as equal
+                  ["v1", "v01"], ["7", "007"], ["a2", "a02", "a002"], ["Key", "key"], ["e\u0301", "\u00e9"], ["k", "k "], ["x10", "x010"]]
         values = ["x", "b", "xy", 10, 2, {"$dict": []}, [], "abc"]
         def side():
             ks = []
@@ -142,6 +144,8 @@ def gen_cases(spec, ctx):
             # 1 == True and 0 == False as mapping keys: keep one of each python-equal class
             out, seen = [], []
             for k in ks:
+                if any(k == o and type(k) is type(o) for o in seen):
+                    continue            # the very same key twice
                 if not any(k == o and type(k) is not str and type(o) is not str for o in seen):
                     out.append(k)
                     seen.append(k)
